@@ -115,8 +115,8 @@ Definition Equal (d c : desc) : bool :=
   if hassub d && hassub c && negb (subexp d =? subexp c) then false else
   true.
 
-(* StreamSwitchSignalId(): (string, error) *)
-Definition StreamSwitchSignalId (d : desc) : Res N :=
-  match vss d with Some k => Ok k | None => Err E.VSSSignalIdNotFound end.
+(* StreamSwitchSignalId(): (string, error).  Some k = (signal id k, nil);
+   None = ("", ErrVSSSignalIdNotFound) -- the only error the function returns. *)
+Definition StreamSwitchSignalId (d : desc) : option N := vss d.
 
 End SegDesc.
